@@ -6,8 +6,9 @@
  * The deterministic sequential fact the schedule theorem rests on: consulting calls do not write when the lazy
  * caches are valid (and exactly the calls the model says write when they are not).  Every episode
  *   load <eseed>                 builds + loads a topology (synthetic description or bundled XML chosen from eseed)
- *   loadbind <eseed>             the same with a bundled XML, IS_THISSYSTEM and RESTRICT_TO_CPUBINDING / _MEMBINDING (finding F33)
- *   observe after-load S         S = validity flags read from the private structures (d=.. a=..); after-load-binding after loadbind
+ *   loadbind <eseed>             the same with a bundled XML, IS_THISSYSTEM and RESTRICT_TO_CPUBINDING and/or _MEMBINDING (F51, fixed)
+ *   observe after-load S         S = validity flags read from the private structures (d=.. a=..)
+ *   expect-valid                 (corpus) every validity flag of the writable topology is set -> valid | invalid S
  *   mods <eseed>                 a modification history (distances, memattr values, cpukinds, restrict, group, misc)
  *   observe after-mod S
  *   wcall <entry> <id> <ok> S    a consulting call on the WRITABLE, unrefreshed topology -> the flags afterwards
@@ -48,7 +49,7 @@ static hwloc_topology_t A;          /* the copy in the arena */
 static char scratch[512];
 static unsigned long st_ops, st_load, st_load_xml, st_load_synth, st_mods, st_calls, st_ro, st_wdist, st_wattr, st_wother,
   st_wcall, st_refresh, st_arena_ref, st_arena_unref, st_arena_partial, st_cinit, st_dists, st_attrs_user, st_dropped,
-  st_restrict, st_mismatch, st_loadbind, st_bind_invalid;
+  st_restrict, st_mismatch, st_loadbind, st_loadflags;
 
 /* ------------------------------------------------------------------ arena */
 #define ARENA_SIZE (256UL << 20)
@@ -174,10 +175,19 @@ static int do_load(uint64_t eseed, char *res, int bind) {
     st_load_synth++;
   }
   if (!rc) {
-    if (bind)   /* finding F33: the restrict-to-binding of load runs after load's refresh */
-      hwloc_topology_set_flags(T, HWLOC_TOPOLOGY_FLAG_IS_THISSYSTEM | (rng_chance(70) ? HWLOC_TOPOLOGY_FLAG_RESTRICT_TO_CPUBINDING
-                                                                                   : HWLOC_TOPOLOGY_FLAG_RESTRICT_TO_MEMBINDING));
-    else if (rng_chance(20)) hwloc_topology_set_flags(T, HWLOC_TOPOLOGY_FLAG_INCLUDE_DISALLOWED);
+    unsigned long fl = 0;
+    if (bind) {   /* F51 (fixed by 6c24a9e): the restrict-to-binding of load runs after load's first refresh */
+      fl = HWLOC_TOPOLOGY_FLAG_IS_THISSYSTEM;
+      switch (rng_below(3)) { case 0: fl |= HWLOC_TOPOLOGY_FLAG_RESTRICT_TO_CPUBINDING; break; case 1: fl |= HWLOC_TOPOLOGY_FLAG_RESTRICT_TO_MEMBINDING; break;
+                              default: fl |= HWLOC_TOPOLOGY_FLAG_RESTRICT_TO_CPUBINDING | HWLOC_TOPOLOGY_FLAG_RESTRICT_TO_MEMBINDING; }
+    } else if (rng_chance(20)) fl = HWLOC_TOPOLOGY_FLAG_INCLUDE_DISALLOWED;
+    if (rng_chance(12)) {   /* every flag word: the NO_* flags in any combination (the user may still add things afterwards) */
+      if (rng_chance(50)) fl |= HWLOC_TOPOLOGY_FLAG_NO_DISTANCES;
+      if (rng_chance(50)) fl |= HWLOC_TOPOLOGY_FLAG_NO_MEMATTRS;
+      if (rng_chance(50)) fl |= HWLOC_TOPOLOGY_FLAG_NO_CPUKINDS;
+      st_loadflags++;
+    }
+    if (fl) hwloc_topology_set_flags(T, fl);
     rc = hwloc_topology_load(T);
   }
   rng_s[0] = s0; rng_s[1] = s1;
@@ -300,15 +310,13 @@ static void exec_line(const char *line) {
     do_load(u, res, 1); st_loadbind++;
   } else if (sscanf(line, "mods %llu", &u) == 1) {
     if (!T) strcpy(res, "no-topology"); else { do_mods(u); strcpy(res, "ok"); }
+  } else if (!strcmp(line, "expect-valid")) {     /* corpus regression op: independent of the exact attribute list */
+    if (!T) strcpy(res, "no-topology");
+    else if (all_valid(T)) strcpy(res, "valid");
+    else { strcpy(res, "invalid "); state_str(T, res + 8); }
   } else if (!strncmp(line, "observe ", 8)) {
     if (!T) strcpy(res, "no-topology"); else if (state_matches(T, line, res)) strcpy(res, "seen");
-    if (!strncmp(line, "observe after-load-binding", 26) && T) {
-      struct hwloc_internal_distances_s *d; int inv = 0;
-      for (d = T->first_dist; d; d = d->next) if (!(d->iflags & HWLOC_INTERNAL_DIST_FLAG_OBJS_VALID)) inv = 1;
-      for (unsigned i = 0; i < T->nr_memattrs; i++)
-        if (!(T->memattrs[i].iflags & (HWLOC_IMATTR_FLAG_CACHE_VALID | HWLOC_IMATTR_FLAG_CONVENIENCE))) inv = 1;
-      if (inv) st_bind_invalid++;
-    }
+
   } else if (!strncmp(line, "refresh ", 8)) {
     if (!T) strcpy(res, "no-topology");
     else if (state_matches(T, line, res)) {
@@ -413,8 +421,8 @@ static void episode(uint64_t eseed) {
   int bind = nxml && rng_chance(10);
   sprintf(line, "%s %llu", bind ? "loadbind" : "load", (unsigned long long) eseed); exec_line(line);
   if (!T) return;
-  emit_state(bind ? "observe after-load-binding" : "observe after-load", T);
-  if (!bind && rng_chance(15)) {            /* straight after load: a refreshed-by-load topology */
+  emit_state("observe after-load", T);
+  if (rng_chance(15)) {            /* straight after load: a refreshed-by-load topology */
     exec_line("arena unrefreshed");
     nc = 4 + rng_below(6); for (unsigned i = 0; i < nc; i++) emit_call("call", A);
   }
@@ -490,7 +498,7 @@ int main(int argc, char **argv) {
     FILE *f = fopen(argv[4], "w");
 #define S(n) fprintf(f, #n " %lu\n", st_##n)
     S(ops); S(load); S(load_xml); S(load_synth); S(mods); S(calls); S(ro); S(wdist); S(wattr); S(wother); S(wcall); S(refresh);
-    S(arena_ref); S(arena_unref); S(arena_partial); S(cinit); S(dists); S(attrs_user); S(restrict); S(mismatch); S(loadbind); S(bind_invalid);
+    S(arena_ref); S(arena_unref); S(arena_partial); S(cinit); S(dists); S(attrs_user); S(restrict); S(mismatch); S(loadbind); S(loadflags);
     fclose(f);
   }
   return 0;
